@@ -268,8 +268,11 @@ def _gen_glob(rng, proj, feats, namer):
     d = namer.dirname("g")
     plan = rng.choice(proj["plans"])["name"]
     n = rng.randint(0, 3)
+    # opt-in (never drawn from FEATURES): a pattern that spans directory levels
+    deep = "deepglobs" in feats and rng.random() < 0.7
     for k in range(n):
-        proj["sources"][f"{d}/i{k}.dat"] = _token(proj)
+        sub = f"s{k % 2}/" if deep and k else ""
+        proj["sources"][f"{d}/{sub}i{k}.dat"] = _token(proj)
     mode = rng.choice(["tree", "static_pattern"])
     if mode == "tree":
         proj["trees"][d + "/"] = plan
@@ -278,7 +281,8 @@ def _gen_glob(rng, proj, feats, namer):
             "plan": plan,
             "dir": d,
             "mode": mode,
-            "pattern": f"{d}/${{*n}}.dat",
+            "deep": deep,
+            "pattern": f"{d}/**/${{*n}}.dat" if deep else f"{d}/${{*n}}.dat",
             "out": f"{d}_o_{{n}}.txt",
             "name": f"G{len(proj['globs'])}",
         }
@@ -634,7 +638,10 @@ def mutate(rng: random.Random, proj: dict, feats, stash: list, masks=frozenset()
     elif op == "glob_add" and p["globs"]:
         g = rng.choice(p["globs"])
         p["uid"] += 1
-        n = f"{g['dir']}/i{p['uid']}.dat"
+        sub = ""
+        if g.get("deep"):
+            sub = rng.choice(["", "s0/", f"n{p['uid']}/", f"n{p['uid']}/m/"])
+        n = f"{g['dir']}/{sub}i{p['uid']}.dat"
         p["sources"][n] = _token(p)
         desc = f"glob_add {n}"
     elif op == "glob_del" and p["globs"]:
